@@ -212,6 +212,14 @@ pub fn raw_payloads() -> Vec<Vec<u8>> {
         b"\r\n\r\n\r\n".to_vec(),
         b"\n".to_vec(),
         b"PING x\nPING y\nPING z\n".to_vec(),
+        // several commands in one segment: the second is handled before any other connection
+        // has reacted to the first (a killed peer is still winding up, a kicked one still queued)
+        b"KILL bob :x\r\nKILL bob :y\r\nKILL bob :z\r\n".to_vec(),
+        b"KICK #c bob\r\nKICK #c bob\r\nMODE #c +v bob\r\n".to_vec(),
+        b"PART #c\r\nPART #c\r\nPRIVMSG #c :x\r\nJOIN #c\r\nJOIN #c\r\n".to_vec(),
+        b"NICK myself\r\nNICK me\r\nNICK myself\r\nMODE me +i\r\nMODE myself +i\r\n".to_vec(),
+        b"INVITE zed #c\r\nINVITE zed #c\r\nKICK #c zed\r\nMODE #c +o zed\r\n".to_vec(),
+        b"WALLOPS :a\r\nKILL yan :x\r\nWALLOPS :b\r\nPRIVMSG yan :x\r\nWHOIS yan\r\n".to_vec(),
     ];
     let mut l = vec![b'a'; 2001];
     l.extend_from_slice(b"\r\nPING after\r\n");
@@ -414,6 +422,30 @@ fn no_crash_step(_scn: &ChatScn, pre: &View, obs: &StepObs, post: &View, goals: 
             let bad = std::str::from_utf8(b).is_err() || b.split(|c| *c == b'\n').any(|l| l.len() > crate::world::MAX_LINE);
             if bad {
                 may_close.insert(actor);
+            } else if let (Ok(text), Some(info)) = (std::str::from_utf8(b), obs.pre_infos[actor].as_ref()) {
+                // several well-formed commands in one segment: what each of them may end
+                let m = M::from_snapshot(&obs.pre);
+                let is_oper = info.nick.as_ref().and_then(|n| m.users.get(n)).map_or(false, |u| u.o);
+                for line in text.split('\n') {
+                    let mut it = line.trim().split(' ').filter(|x| !x.is_empty());
+                    let verb = it.next().unwrap_or("").to_ascii_uppercase();
+                    match verb.as_str() {
+                        "QUIT" => {
+                            may_close.insert(actor);
+                        }
+                        "KILL" if is_oper => {
+                            if let Some(t) = it.next() {
+                                for (i, inf) in obs.pre_infos.iter().enumerate() {
+                                    if inf.as_ref().map_or(false, |x| x.nick.as_deref() == Some(t)) {
+                                        may_close.insert(i);
+                                    }
+                                }
+                            }
+                        }
+                        "DIE" | "SQUIT" if is_oper => all_may_close = true,
+                        _ => {}
+                    }
+                }
             }
         }
         Act::Send(_, line) | Act::SendHeldFirst(_, line) => {
